@@ -104,7 +104,7 @@ theorem capEnv_scratch (acts : Nat → List Member) (bs : List Nat) (capss : Lis
   rw [h]; rfl
 
 def tbsEnv (c : Ctx) (k : Nat) : Env :=
-  ((if c.kind.isSpawn && decide (c.activeCount k ≥ 2) then (c.activeIdx k).map (fun b => (b, b)) else []).map
+  ((if c.kind.threads && decide (c.activeCount k ≥ 2) then (c.activeIdx k).map (fun b => (b, b)) else []).map
     fun (ba : Nat × Nat) => (Var.j ba.1, Value.builder ba.2)).reverse
 
 theorem tbsEnv_scratch (c : Ctx) (k : Nat) : ∀ xv ∈ tbsEnv c k, xv.1.isScratch = true := by
@@ -138,7 +138,7 @@ def cfgOf (σ : World) (parent : Option String) (names : List (Option String)) :
 /-- reference side: the chains of step `k` -/
 def specChains (sc : SpecCfg) (k : Nat) (vals : List (Option Value)) (vis : List (String × Value))
     (act : List Nat) (caps : List (List Value)) : M (List Value) :=
-  if sc.kind.isSpawn && decide (act.length > 1) then specChainsFork sc k vals vis (act.zip caps)
+  if sc.kind.threads && decide (act.length > 1) then specChainsFork sc k vals vis (act.zip caps)
   else specChainsSeq sc k vals vis (act.zip caps)
 
 theorem evalStep_eq {c : Ctx} {names : List (Option String)} (ok : CtxOK c names) (σ : World)
@@ -205,18 +205,20 @@ theorem evalStep_eq {c : Ctx} {names : List (Option String)} (ok : CtxOK c names
       (capDefsOf_keys (c.activeIdx k)[p] 0 ((specCfgOf σ parent names c).acts (c.activeIdx k)[p] k) 0)
     simpa [capVars, capKeys] using this
   have hcount := activeCount_eq ok k
-  by_cases hthr : (c.kind.isSpawn && decide (c.activeCount k ≥ 2)) = true
+  by_cases hthr : (c.kind.threads && decide (c.activeCount k ≥ 2)) = true
   · -- thread-spawning step
-    have hsp : c.kind.isSpawn = true := by simp only [Bool.and_eq_true] at hthr; exact hthr.1
+    have hsp : c.kind.threads = true := by simp only [Bool.and_eq_true] at hthr; exact hthr.1
     have h2 : 2 ≤ (c.activeIdx k).length := by
       simp only [Bool.and_eq_true, decide_eq_true_eq] at hthr; rw [← hcount]; exact hthr.2
     have hmulti : c.multi k = true := by simp [Ctx.multi, hcount]; omega
+    obtain ⟨hspn, hna⟩ : c.kind.isSpawn = true ∧ c.kind.isAsync = false := by simpa [Kind.threads] using hsp
+    have hform := hform.1 hna
     have hel : s.elems.map Elem.sem = (c.activeIdx k).map (fun b =>
         (b, true, ElemWrap.thread b, c.varOf b, (specCfgOf σ parent names c).acts b k)) := by
       rw [helems]
       apply List.map_congr_left
       intro b _
-      simp [hmulti, ok.lazyDefault, hsp, Ctx.wrapOf, ok.sync]
+      simp [hmulti, ok.lazyDefault, hsp, Ctx.wrapOf, hspn, hna]
     have hj : ∀ b ∈ c.activeIdx k, env'.lookup (.j b) = some (.builder b) := by
       intro b hb
       rw [← henv', lookup_append, lookup_eq_none_of_not_mem, Option.none_or]
@@ -236,7 +238,7 @@ theorem evalStep_eq {c : Ctx} {names : List (Option String)} (ok : CtxOK c names
     have hb : s.elems.map Elem.b = c.activeIdx k := by
       have := congrArg (List.map (fun (t : Nat × Bool × ElemWrap × Var × List Member) => t.1)) hel
       simpa [Elem.sem, List.map_map, Function.comp_def] using this
-    have hsc : (specCfgOf σ parent names c).kind.isSpawn = true := hsp
+    have hsc : (specCfgOf σ parent names c).kind.threads = true := hsp
     simp only [specChains, hsc, Bool.true_and, show decide ((c.activeIdx k).length > 1) = true by simp; omega, if_true,
       specChainsFork]
     -- the handles, then the joins
@@ -267,38 +269,54 @@ theorem evalStep_eq {c : Ctx} {names : List (Option String)} (ok : CtxOK c names
     rw [hjoin]
     cases hres : (specJoins k all).res <;> simp [henv']
   · -- sequential step
+    have hw0 : ∃ w0 : ElemWrap, (w0 = .plain ∨ w0 = .tokio) ∧ ∀ b, c.wrapOf k b = w0 := by
+      by_cases ha : c.kind.isAsync = true
+      · by_cases hm : (c.multi k && c.kind.isSpawn) = true
+        · exact ⟨.tokio, Or.inr rfl, fun b => by simp [Ctx.wrapOf, hm, ha]⟩
+        · exact ⟨.plain, Or.inl rfl, fun b => by simp [Ctx.wrapOf, hm]⟩
+      · refine ⟨.plain, Or.inl rfl, fun b => ?_⟩
+        simp only [Ctx.wrapOf]
+        by_cases hsp : c.kind.threads = true
+        · have hm : c.multi k = false := by
+            simp only [Bool.and_eq_true, decide_eq_true_eq, not_and] at hthr
+            have := hthr hsp
+            simp [Ctx.multi]; omega
+          simp [hm]
+        · have : c.kind.isSpawn = false := by
+            simp only [Kind.threads, Bool.and_eq_true, Bool.not_eq_true', not_and, Bool.not_eq_false] at hsp
+            cases hs : c.kind.isSpawn with
+            | false => rfl
+            | true => exact absurd (hsp hs) ha
+          simp [this]
+    obtain ⟨w0, hw0, hwall⟩ := hw0
     have hel : s.elems.map Elem.sem = (c.activeIdx k).map (fun b =>
-        (b, false, ElemWrap.plain, c.varOf b, (specCfgOf σ parent names c).acts b k)) := by
+        (b, false, w0, c.varOf b, (specCfgOf σ parent names c).acts b k)) := by
       rw [helems]
       apply List.map_congr_left
       intro b _
       have hml : (c.multi k && c.lazy) = false := by
         rw [ok.lazyDefault]
         simp only [Bool.and_eq_true, decide_eq_true_eq, not_and, Bool.not_eq_true] at hthr
-        by_cases hsp : c.kind.isSpawn = true
+        by_cases hsp : c.kind.threads = true
         · have := hthr hsp
           simp [Ctx.multi, hsp]; simp at this; omega
         · simp [hsp]
-      have hw : c.wrapOf k b = .plain := by
-        simp only [Ctx.wrapOf]
-        by_cases hsp : c.kind.isSpawn = true
-        · have hm : c.multi k = false := by
-            simp only [Bool.and_eq_true, decide_eq_true_eq, not_and] at hthr
-            have := hthr hsp
-            simp [Ctx.multi]; omega
-          simp [hm]
-        · simp [hsp]
-      simp [hml, hw]
+      simp [hml, hwall b]
     rw [evalElems_seq ⟨σ, names, parent⟩ (specCfgOf σ parent names c) rfl k vals env' c.varOf
-      (c.activeIdx k) capss s.elems hel hprev hl hcaps]
-    have hnot : ((specCfgOf σ parent names c).kind.isSpawn && decide ((c.activeIdx k).length > 1)) = false := by
+      (c.activeIdx k) capss s.elems w0 hw0 hel hprev hl hcaps]
+    have hnot : ((specCfgOf σ parent names c).kind.threads && decide ((c.activeIdx k).length > 1)) = false := by
       have hsc : (specCfgOf σ parent names c).kind = c.kind := rfl
       rw [hsc]
       simp only [Bool.and_eq_true, decide_eq_true_eq, not_and] at hthr
-      by_cases hsp : c.kind.isSpawn = true
+      by_cases hsp : c.kind.threads = true
       · have := hthr hsp
         simp [hsp]; omega
       · simp [hsp]
-    simp only [hvis', hform, hsj, hthr, specChains, hnot, M.andThen_assoc, M.ret_andThen, Bool.false_eq_true, if_false]
+    by_cases ha : c.kind.isAsync = true
+    · rcases hform.2 ha with hf | ⟨j, hf⟩
+      · simp only [hvis', hf, hsj, hthr, specChains, hnot, M.andThen_assoc, M.ret_andThen, Bool.false_eq_true, if_false]
+      · simp only [hvis', hf, hsj, hthr, specChains, hnot, M.andThen_assoc, M.ret_andThen, Bool.false_eq_true, if_false]
+    · have hf := hform.1 (by simpa using ha)
+      simp only [hvis', hf, hsj, hthr, specChains, hnot, M.andThen_assoc, M.ret_andThen, Bool.false_eq_true, if_false]
 
 end JoinModel
